@@ -494,10 +494,25 @@ def union_task(payload):
             args = {params[-1]: Tm(v)}
             if len(params) == 2:
                 args[params[0]] = Tm(eng.fresh("self"))
-            paths = ex.run(fn, args)
+            # precondition (type invariant of a conforming value): its class descends from at most one of the unrelated member
+            # classes named in the helper's class tests (no multiple inheritance across members)
+            gcls = []
+            for n in ast.walk(fn):
+                if isinstance(n, ast.Call) and isinstance(n.func, ast.Name) and n.func.id == "isinstance" and len(n.args) == 2:
+                    for e in (n.args[1].elts if isinstance(n.args[1], ast.Tuple) else [n.args[1]]):
+                        k = (r.globals or {}).get(e.id) if isinstance(e, ast.Name) else None
+                        if isinstance(k, type) and k not in gcls:
+                            gcls.append(k)
+            pre = []
+            tv = eng.typeof(v)
+            for i, ka in enumerate(gcls):
+                for kb in gcls[i + 1:]:
+                    if not issubclass(ka, kb) and not issubclass(kb, ka):
+                        pre.append(z3.Not(z3.And(eng.issub(tv, eng.const(ka)), eng.issub(tv, eng.const(kb)))))
+            paths = ex.run(fn, args, pc=pre)
             probs = []
             nret = 0
-            prover = pysym.Prover(eng, 5000)
+            prover = pysym.Prover(eng, 5000, extra_axioms=pre)
             for path in paths:
                 if path.kind != "return":
                     continue
@@ -542,6 +557,8 @@ def check(pid, tier):
     res = runner.run_pool(c19_task, [(pid, p) for p in pts], chunks=2)
     res += runner.run_pool(union_task, [(pid, "unions")], chunks=1)
     res += runner.run_pool(recunion_task, [(pid, base, opts) for base in ("dict", "orjson") for opts in (("ADD_SERIALIZATION_CONTEXT",), ("ADD_SERIALIZATION_CONTEXT", "ADD_DIALECT_SUPPORT", "TO_DICT_ADD_OMIT_NONE_FLAG"), ())], chunks=1)
+    res += runner.run_pool(member_flags_task, [(pid, base, ("ADD_SERIALIZATION_CONTEXT",)) for base in ("dict", "orjson", "msgpack")]
+                           + [(pid, "dict", ("ADD_SERIALIZATION_CONTEXT", "ADD_DIALECT_SUPPORT", "TO_DICT_ADD_OMIT_NONE_FLAG", "TO_DICT_ADD_BY_ALIAS_FLAG"))], chunks=1)
     res += runner.run_pool(stub_task, [(pid, base, mode, ctx) for base in ("dict", "orjson", "msgpack") for mode in ("lazy", "postponed") for ctx in (False, True)], chunks=1)
     obs, crashes = [], []
     for r in res:
@@ -558,3 +575,119 @@ def check(pid, tier):
         functions=["CodeBuilder._add_pack_method_lines / _add_unpack_method_lines hook emission", "CodeBuilder._add_pack_method_lines_lazy / _add_unpack_method_lines_lazy (stub runs no hook)", "pack_union (attempt counting)", "pack_dataclass / pack Self flag forwarding"],
         crashes=crashes,
     )
+
+
+# ---------------------------------------------------------------------------------------------
+# union members with different opt-ins: every attempt the union helper can make on an instance of a
+# member class K is K's own required call (the flags both K and the holder opted in to, no others)
+# ---------------------------------------------------------------------------------------------
+MEMBER_SRC = '''
+from mashumaro.config import ADD_SERIALIZATION_CONTEXT, ADD_DIALECT_SUPPORT, TO_DICT_ADD_OMIT_NONE_FLAG, TO_DICT_ADD_BY_ALIAS_FLAG
+LOG = []
+class CallD(Dialect):
+    serialization_strategy = {{int: {{"serialize": str, "deserialize": int}}}}
+@dataclass
+class B(MIX):
+    y: Optional[str] = None
+@dataclass
+class A(MIX):
+    x: Optional[int] = field(default=None, metadata={{"alias": "X"}})
+    {hook}
+    class Config(BaseConfig):
+        code_generation_options = [{opts}]
+@dataclass
+class C(MIX):
+    u: Union[B, A]
+    v: Union[A, B]
+    w: List[Union[B, A]] = field(default_factory=list)
+    class Config(BaseConfig):
+        code_generation_options = [{opts}]
+'''
+MEMBER_CALLS = {
+    "ADD_SERIALIZATION_CONTEXT": ("context", "{'k': 1}"),
+    "TO_DICT_ADD_OMIT_NONE_FLAG": ("omit_none", "True"),
+    "TO_DICT_ADD_BY_ALIAS_FLAG": ("by_alias", "True"),
+    "ADD_DIALECT_SUPPORT": ("dialect", "CallD"),
+}
+
+
+def _union_attempts(fn):
+    """[(guard expression or None, call node)] for the serializer calls `value.__mashumaro_to_*__(...)` of a union helper"""
+    out = []
+
+    def visit(stmts, guard):
+        for s in stmts:
+            if isinstance(s, ast.If):
+                visit(s.body, s.test if guard is None else ast.BoolOp(ast.And(), [guard, s.test]))
+                visit(s.orelse, guard)
+            elif isinstance(s, ast.Try):
+                visit(s.body, guard)
+            elif isinstance(s, (ast.For, ast.While, ast.With)):
+                visit(s.body, guard)
+            else:
+                for c in ast.walk(s):
+                    if (isinstance(c, ast.Call) and isinstance(c.func, ast.Attribute) and c.func.attr.startswith("__mashumaro_to_")
+                            and isinstance(c.func.value, ast.Name) and c.func.value.id == "value"):
+                        out.append((guard, c))
+
+    visit(fn.body, None)
+    return out
+
+
+def member_flags_task(payload):
+    pid, base, opts = payload
+    label = f"[{base}/union-members/{'+'.join(MEMBER_CALLS[o][0] for o in opts)}]"
+    imp, mix, eps = BASES[base]
+    hook = "def __post_serialize__(self, d, context=None):\n        LOG.append(context)\n        return d" if "ADD_SERIALIZATION_CONTEXT" in opts else "pass"
+    src = "\n".join([g4.PRELUDE, imp]) + MEMBER_SRC.format(opts=", ".join(opts), hook=hook)
+    try:
+        mod, recs0 = build.build_module(src)
+    except Exception as e:
+        return {"obligations": [dict(id=f"{pid}.Gmem{label}/builds", status="refuted", detail=f"{type(e).__name__}: {e}"[:300], witness={"confirmed": True, "source": src, "why": str(e)[:200]})]}
+    try:
+        recs = [r for r in harvest.RECORDER.records if recs0 and r.seq >= recs0[0].seq]
+        members = [mod.B, mod.A]
+        probs, nattempts = [], 0
+        for r in recs:
+            if r.builder is None or r.builder.cls is not mod.C:
+                continue
+            g = dict(r.globals or {})
+            for fn in [n for n in ast.parse(r.text).body if isinstance(n, ast.FunctionDef) and n.name.startswith("__pack_union")]:
+                for guard, call in _union_attempts(fn):
+                    nattempts += 1
+                    got = sorted(k.arg for k in call.keywords if k.arg)
+                    if guard is None:
+                        applicable = list(members)
+                    else:
+                        gcls = [g.get(n.id) for n in ast.walk(guard) if isinstance(n, ast.Name) and isinstance(g.get(n.id), type)]
+                        applicable = [K for K in members if any(issubclass(K, x) for x in gcls)]
+                    for K in applicable:
+                        want = sorted(pn for flag, pn in _flags() if flag in g2.class_flags(mod.C) and flag in g2.class_flags(K))
+                        if got != want:
+                            probs.append(f"{fn.name.split('__')[1]}: the attempt {ast.unparse(call)} {'is not guarded by a class test and ' if guard is None else ''}can run on an instance of {K.__name__}, "
+                                         f"whose required call passes ({', '.join(want) or 'no flag'})")
+        # native replay: equal instances of A in both declaration orders give equal results and see the caller's context
+        first = []
+        kw = {MEMBER_CALLS[o][0]: eval(MEMBER_CALLS[o][1], vars(mod)) for o in opts}
+        try:
+            mod.LOG.clear()
+            d = mod.C(u=mod.A(None), v=mod.A(None), w=[mod.A(3)]).to_dict(**kw)
+            if d["u"] != d["v"]:
+                first.append(f"the same A() serializes as {d['u']!r} under Union[B, A] and as {d['v']!r} under Union[A, B]")
+            if "context" in kw and any(c is not kw["context"] for c in mod.LOG):
+                first.append(f"A.__post_serialize__ received context={[c for c in mod.LOG if c is not kw['context']][0]!r}, expected the caller's context object")
+            if "dialect" in kw and d["w"] != [{"x": "3"} if "by_alias" not in kw else {"X": "3"}]:
+                first.append(f"List[Union[B, A]] member A(3) serialized as {d['w']!r} under dialect=CallD")
+        except Exception as e:  # noqa
+            first.append(f"to_dict raised {type(e).__name__}: {str(e)[:160]}")
+        call_txt = f"C(u=A(None), v=A(None), w=[A(3)]).to_dict({', '.join(MEMBER_CALLS[o][0] + '=' + MEMBER_CALLS[o][1] for o in opts)})"
+        w = {"confirmed": True, "source": src, "input": call_txt, "why": first[0]} if first else None
+        obs = [dict(id=f"{pid}.Gmem{label}/member_calls", status="proved" if not probs else "refuted", unit=f"{nattempts} serializer attempts in the union helpers of C",
+                    detail="; ".join(sorted(set(probs)))[:700], witness=w if probs else None)]
+        if not nattempts:
+            obs.append(dict(id=f"{pid}.Gmem{label}/cover", status="refuted", detail="no serializer attempt found in the union helpers (vacuity guard)"))
+        obs.append(dict(id=f"{pid}.Hmem{label}/native_run", status="proved" if not first else "refuted", unit="native to_dict on equal members in both declaration orders (bounded)", bounded=True,
+                        detail="; ".join(first)[:500], witness=w))
+        return {"obligations": obs}
+    finally:
+        build.drop_module(mod)
